@@ -17,7 +17,7 @@ RULE = (
     "singular query, two non-singular queries, value-typed call, logical-typed call, comparison, logical expression, nested "
     "ill-typed call), used as a test and as either comparison operand; O: every comparison over 8 operand kinds; each basic "
     "expression placed at every position (top, under !, either side of && and ||, in parentheses, inside a nested filter); "
-    "depth-2 nestings of calls (thorough: 3). L: index and slice bounds at limit-1, limit, limit+1 (both signs) under the "
+    "depth-2 nestings of calls (thorough: 3). S: every spelling (both quote styles, dot/bracket forms, one blank at every ABNF S position) of a sample of the well-typed expressions at three positions must compile; L: index and slice bounds at limit-1, limit, limit+1 (both signs) under the "
     "default environment and one narrowed to +-10; leading zeros; list shapes; uncompared literals at every position. "
     "state = distinct (environment, query text); non-trivial = the classifier says well-typed (must compile)"
 )
@@ -133,9 +133,9 @@ LIMIT = 2 ** 53 - 1
 def lexical_cases():
     """(env, text, expect_ok, tag)"""
     out = []
-    for env, lim in (("default", LIMIT), ("narrow", 10)):
-        for v in (lim - 1, lim, lim + 1, -(lim - 1), -lim, -(lim + 1), 0, 1, -1):
-            ok = -lim <= v <= lim
+    for env, lim, lo in (("default", LIMIT, -LIMIT), ("narrow", 10, -10), ("asym", 10, -3), ("asym2", 3, -10)):
+        for v in (lim - 1, lim, lim + 1, lo + 1, lo, lo - 1, -lim, -(lim + 1), -lo, 0, 1, -1):
+            ok = lo <= v <= lim
             out.append((env, "$[%d]" % v, ok, "index-range"))
             out.append((env, "$[%d:]" % v, ok, "slice-range"))
             out.append((env, "$[:%d]" % v, ok, "slice-range"))
@@ -171,7 +171,19 @@ def plan(tier, seed):
     for lo in range(0, nb, 300):
         shards.append(("T", tier, lo, min(nb, lo + 300)))
     shards.append(("L",))
+    ws = well_typed_sample(tier)
+    for lo in range(0, len(ws), 20):
+        shards.append(("S", tier, lo, min(len(ws), lo + 20)))
     return shards
+
+
+def well_typed_sample(tier):
+    out = []
+    step = 7 if tier == "quick" else 2
+    for i, e in enumerate(basics("quick")):
+        if i % step == 0 and rtype.logical_ok(e):
+            out.append(e)
+    return out
 
 
 _ENVS = {}
@@ -185,11 +197,9 @@ def env(name, well_typed=True):
         if name == "default":
             _ENVS[key] = jsonpath.JSONPathEnvironment(well_typed=well_typed)
         else:
-            class Narrow(jsonpath.JSONPathEnvironment):
-                max_int_index = 10
-                min_int_index = -10
-
-            _ENVS[key] = Narrow(well_typed=well_typed)
+            hi, lo = {"narrow": (10, -10), "asym": (10, -3), "asym2": (3, -10)}[name]
+            cls = type("Limits_" + name, (jsonpath.JSONPathEnvironment,), {"max_int_index": hi, "min_int_index": lo})
+            _ENVS[key] = cls(well_typed=well_typed)
     return _ENVS[key]
 
 
@@ -200,6 +210,15 @@ def run_shard(shard, acc):
                 placed = place(e, pos)
                 q = Q(C(F(placed)))
                 _check("T", "default", spell.text(q), rtype.logical_ok(placed), acc, {"q": q, "position": pos})
+    elif shard[0] == "S":
+        # every spelling (quote styles, dot/bracket, one blank at every ABNF S position) of well-typed queries compiles
+        o = spell.Opts(full_strings=False)
+        blanks = (" ",) if shard[1] == "quick" else spell.BLANKS
+        for e in well_typed_sample(shard[1])[shard[2]:shard[3]]:
+            for pos in ("top", "not-paren", "and-r"):
+                q = Q(C(F(place(e, pos))))
+                for text in spell.spellings(spell.query(q, o), 1, True, blanks=blanks):
+                    _check("S", "default", text, True, acc, {"q": q, "position": pos})
     else:
         for envname, text, ok, tag in lexical_cases():
             _check("L", envname, text, ok, acc, {"tag": tag})
@@ -231,15 +250,15 @@ def _check(sub, envname, text, expect_ok, acc, extra, record=True):
                       case, expected=want, observed=got)
 
 
-REQUIRE = {"T.ok": 500, "T.ill": 5000, "L.ok": 50, "L.ill": 200, "tag.index-range": 10, "tag.slice-range": 10,
+REQUIRE = {"S.ok": 1000, "T.ok": 500, "T.ill": 5000, "L.ok": 50, "L.ill": 200, "tag.index-range": 10, "tag.slice-range": 10,
            "tag.leading-zero": 5, "tag.list-shape": 5, "tag.uncompared-literal": 50}
 
 
 def check_case(sub, case, acc):
-    if sub == "T":
+    if sub in ("T", "S"):
         q = tup(case["q"])
         placed = q[2][0][1][0][1]
-        _check("T", case["env"], case["text"], rtype.logical_ok(placed), acc, {"q": q, "position": case.get("position")}, record=False)
+        _check(sub, case["env"], case["text"], rtype.logical_ok(placed), acc, {"q": q, "position": case.get("position")}, record=False)
     else:
         ok = None
         for envname, text, expect, tag in lexical_cases():
